@@ -158,6 +158,11 @@ let compare_view (dir : string) (ev : epc_view) (file : string) : string list =
    | None -> bad := "proposers:missing" :: !bad);
   expect "effective_balances" (Hashtbl.find_opt tbl "effective_balances") (ints ev.ev_effective_balances);
   expect "total_active_stake" (Hashtbl.find_opt tbl "total_active_stake") (string_of_n ev.ev_total_active_stake);
+  (* the cached square root (used for altair+ base rewards): the Spec's integer_squareroot of the Spec's stake; the line is
+     optional so that older dumps still parse *)
+  (match Hashtbl.find_opt tbl "total_active_stake_sqrt" with
+   | Some g -> if String.concat " " g <> string_of_n (integer_squareroot ev.ev_total_active_stake) then bad := "total_active_stake_sqrt" :: !bad
+   | None -> ());
   (match ev.ev_sync_current with Some l -> expect "sync_current" (Hashtbl.find_opt tbl "sync_current") (ints l) | None -> ());
   (match ev.ev_sync_next with Some l -> expect "sync_next" (Hashtbl.find_opt tbl "sync_next") (ints l) | None -> ());
   List.rev !bad
